@@ -81,11 +81,11 @@ Qed.
 
 Lemma conv_m_exact wa n d wt g l c :
   rep_ok wt = true ->
-  period_ok n d = true -> period_ok g l = true -> (g | n) -> (d | l) -> n * l <= max64 ->
+  period_ok n d = true -> period_ok g l = true -> (g | n) -> (d | l) -> ticks n d g l <= max64 ->
   in_rep wt (c * ticks n d g l) = true ->
   conv_m (Dur wa n d) (Dur wt g l) c = Val (c * ticks n d g l).
 Proof.
-  intros Hwt Hp Hpt Hgn Hdl Hnl Hfit.
+  intros Hwt Hp Hpt Hgn Hdl Htk Hfit.
   pose proof (proj1 (period_ok_iff _ _) Hp) as (Hn & Hd & Hc).
   pose proof (proj1 (period_ok_iff _ _) Hpt) as (Hg & Hl & Hcc).
   destruct (ticks_facts n d g l ltac:(lia) ltac:(lia) ltac:(lia) ltac:(lia) Hgn Hdl) as (Et & Htp & Hdiv).
@@ -95,13 +95,16 @@ Proof.
     assert (E1 : ticks g l g l = 1) by nia. rewrite E1, Z.mul_1_r. reflexivity.
   - cbn [pn pd rw].
     assert (Hb : d * g <= n * l) by (apply Z.divide_pos_le; [nia|exact Hdiv]).
-    rewrite ratio_divide_m_spec by (try assumption; lia).
-    cbn [bind fst snd].
     assert (EG : Z.gcd (n * l) (d * g) = d * g).
     { rewrite Z.gcd_comm. apply Z.divide_gcd_iff; [nia|exact Hdiv]. }
-    rewrite EG. rewrite Z.div_same by nia. cbn [Z.eqb Pos.eqb negb].
-    fold (ticks n d g l).
+    assert (Efn : factor_num n d g l = ticks n d g l) by (unfold factor_num, ticks; rewrite EG; reflexivity).
+    assert (Efd : factor_den n d g l = 1) by (unfold factor_den; rewrite EG; apply Z.div_same; nia).
+    rewrite period_quotient_integral_m_spec by assumption.
+    rewrite ratio_divide_m_spec by (try assumption; rewrite ?Efn, ?Efd; unfold max64 in *; lia).
+    rewrite Efn, Efd. cbn [bind fst snd].
+    replace (ticks n d g l <=? max64) with true by lia. cbn [andb Z.eqb Pos.eqb negb].
     rewrite ck64_ok by (eapply in_rep_in64; eassumption). cbn [bind].
+    rewrite div_rep_pos by lia. cbn [bind]. rewrite Z.quot_1_r.
     rewrite wrap_rep_id by assumption. reflexivity.
 Qed.
 
@@ -116,8 +119,8 @@ Proof. unfold in_common, tk2. cbv zeta. rewrite cnum_comm, cden_comm. reflexivit
 
 Lemma common_ok_iff n1 d1 n2 d2 :
   common_ok n1 d1 n2 d2 = true <->
-  cden d1 d2 <= max64 /\ n1 * cden d1 d2 <= max64 /\ n2 * cden d1 d2 <= max64.
-Proof. unfold common_ok, lim64, max64. lia. Qed.
+  cden d1 d2 <= max64 /\ tk1 n1 d1 n2 d2 <= max64 /\ tk2 n1 d1 n2 d2 <= max64.
+Proof. unfold common_ok, tk1, tk2, lim64, max64. rewrite !Bool.andb_true_iff, !Z.leb_le. tauto. Qed.
 
 Lemma both_ok_iff w1 n1 d1 w2 n2 d2 c1 c2 :
   both_ok w1 n1 d1 w2 n2 d2 c1 c2 = true <->
@@ -267,7 +270,8 @@ Section BinOps.
       pose proof (rep_ok_max _ _ Hw1 Hw2) as Hwc.
       unfold rep_ok, in_rep, in32, in64, min_rep, min32, max32, min64, max64 in *.
       destruct (Z.max w1 w2 =? 32); cbn in Hf; discriminate.
-    - rewrite Eq. reflexivity.
+    - rewrite <- Eq. destruct (c2 * tk2 n1 d1 n2 d2 =? 1) eqn:E1; [|reflexivity].
+      apply Z.eqb_eq in E1. rewrite E1, Z.quot_1_r. reflexivity.
   Qed.
 
   Lemma mod_m_spec c1 c2 : div_ok w1 n1 d1 w2 n2 d2 c1 c2 = true ->
